@@ -6,7 +6,7 @@ git checkout -q -- . ; git clean -fdq core/tests cli/tests 2>/dev/null
 demo() {
   cargo build --offline -q --workspace 2>/dev/null
   for s in run.sh run_demo.sh demo.sh demo/run.sh; do
-    if [ -f $d/$s ]; then (cd $wt && timeout 300 sh $d/$s 2>&1 | sed 's/\x1b\[[0-9;]*m//g' | grep -v "^+ \|Finished\|Compiling\|real\|user\|sys"); fi
+    if [ -f $d/$s ]; then (cd $wt && timeout 300 $(head -1 $d/$s | grep -q bash && echo bash || echo sh) $d/$s 2>&1 | sed 's/\x1b\[[0-9;]*m//g' | grep -v "^+ \|Finished\|Compiling\|real\|user\|sys"); fi
   done
   if ! ls $d/*.sh >/dev/null 2>&1; then
     for l in $d/*.ledger; do [ -f "$l" ] && { echo "\$ balance $(basename $l)"; ./target/debug/okane balance $l 2>&1; echo "[exit $?]"; }; done
